@@ -38,6 +38,14 @@ pub(crate) fn stub_fmt_write(_o: &mut dyn core::fmt::Write, _a: core::fmt::Argum
     Ok(())
 }
 
+/// Stand-in for `be_version_negotiation` in the harnesses that EXCLUDE Version Negotiation datagrams
+/// by assumption (they are covered by c03_pkt_packet_vn / c03_pkt_header_vn): the real parser's
+/// many_till + Vec::push loop is unrolled to the unwind bound on every path and costs ~200 k SSA
+/// steps per iteration. Reaching the stand-in is a failed check, so the exclusion cannot hide a path.
+pub(crate) fn stub_vn_excluded(_input: &[u8]) -> nom::IResult<&[u8], crate::packet::header::long::VersionNegotiation> {
+    panic!("Version Negotiation path reached in a harness that assumes it away")
+}
+
 // tracing (PacketReader::next logs the dropped packet), see .agent/NOTES-tracing.md
 pub(crate) fn stub_tr_interest(_c: &'static tracing::callsite::DefaultCallsite) -> tracing::subscriber::Interest {
     tracing::subscriber::Interest::never()
@@ -865,10 +873,28 @@ fn p_packet<const N: usize>() {
     kani::assume(dcid_len <= MAX_CID_SIZE);
     let reference = ref_packet(&arr, len, dcid_len);
     kani::assume(reference != RefPkt::CidTooLarge);
+    // Version Negotiation datagrams (long form, version 0) with complete cids: c03_pkt_packet_vn
+    kani::assume(!is_vn_with_cids(&arr, len));
     packet_case(&arr, len, dcid_len, reference);
 }
 
+/// Long form, version 0, both connection ids complete and <= 20 bytes: exactly the datagrams for
+/// which be_packet reaches be_version_negotiation.
+fn is_vn_with_cids<const N: usize>(a: &[u8; N], len: usize) -> bool {
+    matches!(ref_type(a, len), Ok((RefTy::Vn, _))) && matches!(ref_long_cids(a, 5, len), RefLong::Cids(..))
+}
+
+/// C03 be_packet on Version Negotiation datagrams (the complement of p_packet's exclusion).
+fn p_packet_vn<const N: usize>() {
+    let (arr, len) = any_input::<N>();
+    kani::assume(is_vn_with_cids(&arr, len));
+    let reference = ref_packet(&arr, len, 0);
+    assert!(matches!(reference, RefPkt::Vn | RefPkt::IncompleteHeader(RefTy::Vn)));
+    packet_case(&arr, len, kani::any(), reference);
+}
+
 #[kani::proof]
+#[kani::stub(crate::packet::header::long::io::be_version_negotiation, stub_vn_excluded)]
 #[kani::stub(core::slice::index::slice_index_fail, stub_slice_index_fail)]
 #[kani::stub(core::fmt::write, stub_fmt_write)]
 #[kani::stub(crate::varint::be_varint, model_be_varint)]
@@ -877,86 +903,18 @@ fn c03_pkt_packet_any_bytes() {
     p_packet::<40>();
 }
 
-/// C03 be_packet per packet kind: the type-determining prefix (first byte; for long headers also the
-/// version) is CONCRETE, everything after it and the datagram length are symbolic. be_packet looks at
-/// the prefix only through be_packet_type, whose verdict for every first byte / version is
-/// c03_pkt_type_any_bytes; with a concrete prefix CBMC follows one header kind instead of six
-/// (the fully symbolic c03_pkt_packet_any_bytes is 1.2 M SSA steps: thorough tier).
-/// `low` = the bits of the first byte be_packet_type ignores (protected bits; for VN all 7 low bits).
-fn p_packet_kind<const N: usize>(first: u8, version: Option<u32>) {
-    let (mut arr, len) = any_input::<N>();
-    arr[0] = first;
-    let plen = match version {
-        Some(v) => {
-            arr[1] = (v >> 24) as u8;
-            arr[2] = (v >> 16) as u8;
-            arr[3] = (v >> 8) as u8;
-            arr[4] = v as u8;
-            5
-        }
-        None => 1,
-    };
-    kani::assume(len >= plen);
-    let dcid_len: usize = kani::any();
-    kani::assume(dcid_len <= MAX_CID_SIZE);
-    let reference = ref_packet(&arr, len, dcid_len);
-    kani::assume(reference != RefPkt::CidTooLarge);
-    packet_case(&arr, len, dcid_len, reference);
-}
-
+/// Version Negotiation datagrams of <= 24 bytes (up to 4 versions after two empty cids).
 #[kani::proof]
 #[kani::stub(core::slice::index::slice_index_fail, stub_slice_index_fail)]
 #[kani::stub(core::fmt::write, stub_fmt_write)]
-#[kani::stub(crate::varint::be_varint, model_be_varint)]
-#[kani::unwind(6)]
-fn c03_pkt_packet_initial() {
-    p_packet_kind::<40>(0xc0, Some(1));
-}
-
-#[kani::proof]
-#[kani::stub(core::slice::index::slice_index_fail, stub_slice_index_fail)]
-#[kani::stub(core::fmt::write, stub_fmt_write)]
-#[kani::stub(crate::varint::be_varint, model_be_varint)]
-#[kani::unwind(6)]
-fn c03_pkt_packet_zero_rtt() {
-    p_packet_kind::<40>(0xd0, Some(1));
-}
-
-#[kani::proof]
-#[kani::stub(core::slice::index::slice_index_fail, stub_slice_index_fail)]
-#[kani::stub(core::fmt::write, stub_fmt_write)]
-#[kani::stub(crate::varint::be_varint, model_be_varint)]
-#[kani::unwind(6)]
-fn c03_pkt_packet_handshake() {
-    p_packet_kind::<40>(0xe0, Some(1));
-}
-
-#[kani::proof]
-#[kani::stub(core::slice::index::slice_index_fail, stub_slice_index_fail)]
-#[kani::stub(core::fmt::write, stub_fmt_write)]
-#[kani::unwind(6)]
-fn c03_pkt_packet_one_rtt() {
-    p_packet_kind::<44>(if kani::any() { 0x40 } else { 0x60 }, None);
-}
-
-#[kani::proof]
-#[kani::stub(core::slice::index::slice_index_fail, stub_slice_index_fail)]
-#[kani::stub(core::fmt::write, stub_fmt_write)]
-#[kani::unwind(6)]
-fn c03_pkt_packet_retry() {
-    p_packet_kind::<28>(0xf0, Some(1));
-}
-
-#[kani::proof]
-#[kani::stub(core::slice::index::slice_index_fail, stub_slice_index_fail)]
-#[kani::stub(core::fmt::write, stub_fmt_write)]
-#[kani::unwind(6)]
+#[kani::unwind(7)]
 fn c03_pkt_packet_vn() {
-    p_packet_kind::<20>(0x80, Some(0));
+    p_packet_vn::<24>();
 }
 
 /// thorough: real be_varint
 #[kani::proof]
+#[kani::stub(crate::packet::header::long::io::be_version_negotiation, stub_vn_excluded)]
 #[kani::stub(core::slice::index::slice_index_fail, stub_slice_index_fail)]
 #[kani::stub(core::fmt::write, stub_fmt_write)]
 #[kani::unwind(10)]
@@ -969,6 +927,7 @@ fn c03_pkt_packet_any_bytes_real() {
 /// drop the packet". be_connection_id returns nom::Err::Error(TooLarge), be_header propagates it, and
 /// be_packet maps every non-Incomplete header error to `unreachable!(..)`: a panic in the receive task.
 #[kani::proof]
+#[kani::stub(crate::packet::header::long::io::be_version_negotiation, stub_vn_excluded)]
 #[kani::stub(core::slice::index::slice_index_fail, stub_slice_index_fail)]
 #[kani::stub(core::fmt::write, stub_fmt_write)]
 #[kani::unwind(10)]
@@ -989,6 +948,7 @@ fn c03_pkt_packet_cid_too_large_pending() {
 /// shrinks it. Together with c03_pkt_packet_any_bytes: the loop over a datagram terminates after at
 /// most len steps and yields at most one Err, which is the last item.
 #[kani::proof]
+#[kani::stub(crate::packet::header::long::io::be_version_negotiation, stub_vn_excluded)]
 #[kani::stub(core::slice::index::slice_index_fail, stub_slice_index_fail)]
 #[kani::stub(core::fmt::write, stub_fmt_write)]
 #[kani::stub(tracing::callsite::DefaultCallsite::interest, stub_tr_interest)]
@@ -1002,6 +962,7 @@ fn c03_pkt_reader_progress() {
     kani::assume(dcid_len <= MAX_CID_SIZE);
     let reference = ref_packet(&arr, len, dcid_len);
     kani::assume(reference != RefPkt::CidTooLarge);
+    kani::assume(!is_vn_with_cids(&arr, len)); // c03_pkt_packet_vn
     let mut reader = PacketReader::new(BytesMut::from(&arr[..len]), dcid_len);
     match reader.next() {
         None => {
